@@ -54,6 +54,9 @@ func (c *VCtx) ptrVal(t *Term, ptrType types.Type) Val {
 
 // wrapTyped attaches Go type info and normalises pointer values.
 func (c *VCtx) typed(v Val, t types.Type) Val {
+	if t == nil {
+		return v
+	}
 	if tm, ok := v.(*Term); ok {
 		if _, isPtr := t.Underlying().(*types.Pointer); isPtr && tm.Sort == SRef {
 			if _, isTP := t.(*types.TypeParam); !isTP {
@@ -108,7 +111,9 @@ func (c *VCtx) embedAddr(base *Term, structT types.Type, field string, ft types.
 	inv := "base!" + typeKey(structT) + "." + field
 	s := c.declareFun(fn, []Sort{SRef}, SRef)
 	is := c.declareFun(inv, []Sort{SRef}, SRef)
-	c.fact(T(SBool, fmt.Sprintf("(and (= (%s (%s %s)) %s) (not (= (%s %s) null)))", is, s, base.S, base.S, s, base.S)))
+	if !strings.Contains(base.S, "q!") {
+		c.fact(T(SBool, fmt.Sprintf("(and (= (%s (%s %s)) %s) (not (= (%s %s) null)))", is, s, base.S, base.S, s, base.S)))
+	}
 	t := TG(SRef, types.NewPointer(ft), fmt.Sprintf("(%s %s)", s, base.S))
 	info := &embedInfo{base: base, path: []string{field}, typ: ft, chain: []embedLink{{base, structT}}}
 	if up, ok := c.embedded[base.S]; ok {
